@@ -293,3 +293,102 @@ def metamodule_canary(H, _):
     k = H.choice("which", [0, 1])
     q = H.call(m.clone)
     H.check("canary_every_label_survives", q.user_defined[k].label == m.user_defined[k].label)
+
+
+def _edit_cases(tier):
+    out = []
+    for i, what in enumerate(["negative_min_range", "bool", "enum", "plain_range", "unset", "missing_module"]):
+        for ctx in ("synth", "project"):
+            if tier == "quick" and ctx == "project" and i not in (0, 4):
+                continue
+            out.append((f"ud{i + 1}={what},{ctx}", (i, ctx)))
+    return out
+
+
+def _inner_state(mm):
+    return {(mod.index, name): v for mod in mm.project.modules if mod is not None and not isinstance(mod, MetaModule)
+            for name, v in mod.controller_values.items()}
+
+
+@contract("edit_user_defined_after_load", ["C06", "C15"], targets=_T + ["rv.modules.metamodule:MetaModule.on_controller_changed"], cases=_edit_cases)
+def edit_user_defined_after_load(H, case):
+    """A loaded MetaModule with six exposed user-defined controllers (mapped onto a negative-minimum
+    range, a bool, an enum, a plain range, nothing, and a module that does not exist): assigning ANY
+    in-domain value to one of them through the attribute does not raise; after save + load that
+    controller shows the value, the embedded controller it is mapped to shows it too, and every other
+    embedded controller and every other user-defined controller is as it was."""
+    i, ctx = case
+    m = build_metamodule(H, 6)
+    if ctx == "synth":
+        box = rw.read_back(H, rw.write_container(H, Synth(m)))
+        get = lambda b: b.module  # noqa
+    else:
+        p = Project()
+        p.attach_module(m)
+        box = rw.read_back(H, rw.write_container(H, p))
+        get = lambda b: b.modules[1]  # noqa
+    q = get(box)
+    H.check("loaded", type(q) is MetaModule and q.user_defined_controllers == 6)
+    if type(q) is not MetaModule:
+        return
+    name = f"user_defined_{i + 1}"
+    t = q.user_defined[i].value_type
+    if isinstance(t, Range):
+        v = H.int("new_value", t.min, t.max)
+    elif t is bool:
+        v = H.bool("new_value")
+    else:
+        v = H.choice("new_value", list(t))
+    inner_before = _inner_state(q)
+    own_before = {k: x for k, x in q.controller_values.items() if k != name}
+    exc, _ = H.raises(H.setattr, q, name, v)
+    H.check("assignment_does_not_raise", exc is None)
+    if exc is not None:
+        return
+    r = get(rw.read_back(H, rw.write_container(H, box)))
+    H.check("edited_value_is_what_gets_saved", H.eq(r.controller_values[name], v))
+    mod_i, ctl_i = TARGETS[i]
+    target = None
+    if 0 < mod_i < len(q.project.modules):
+        tm = q.project.modules[mod_i]
+        target = (tm.index, list(type(tm).controllers)[ctl_i])
+    inner_after = _inner_state(r)
+    H.check("same_embedded_controllers", set(inner_after) == set(inner_before))
+    for k in inner_before:
+        if k == target:
+            H.check("mapped_embedded_controller_shows_the_value", H.eq(inner_after.get(k), v))
+        else:
+            H.check(f"embedded[{k[0]}].{k[1]}.untouched", H.eq(inner_after.get(k), inner_before[k]))
+    for k, x in own_before.items():
+        if k in r.controller_values and (not k.startswith("user_defined_") or int(k.rsplit("_", 1)[1]) <= 6):
+            H.check(f"own[{k}].untouched", H.eq(r.controller_values[k], x))
+    H.cover("reached")
+
+
+def _embedded_cases(tier):
+    return [(n, n) for n in ("volume", "balance", "dc_offset", "inverse")]
+
+
+@contract("embedded_assignment_with_mappings", ["C09", "C15"], cases=_embedded_cases,
+          targets=["rv.modules.metamodule:MetaModule.on_embedded_controller_changed", "rv.modules.metamodule:MetaModule.on_controller_changed",
+                   "rv.project:Project.on_controller_changed", "rv.controller:Controller.propagate"])
+def embedded_assignment_with_mappings(H, cname):
+    """A module inside a MetaModule whose user-defined controllers are mapped onto two of its
+    controllers (balance, volume): assigning any in-range value to one of its controllers does not
+    raise, reads back exactly, and leaves its other controllers as they were (strict mode)."""
+    mm = MetaModule()
+    amp = mm.project.new_module(Amplifier)
+    mm.user_defined_controllers = 2
+    mm.mappings.values[0] = MetaModule.Mapping((amp.index, _ctl_index(Amplifier, "balance")))
+    mm.mappings.values[1] = MetaModule.Mapping((amp.index, _ctl_index(Amplifier, "volume")))
+    MetaModule.MappingArray.update_user_defined_controllers(mm)
+    K.strict()
+    v, _t = K.sym_value_in_domain(H, amp, cname)
+    before = {k: x for k, x in amp.controller_values.items() if k != cname}
+    exc, _ = H.raises(H.setattr, amp, cname, v)
+    H.check("in_range_assignment_does_not_raise", exc is None)
+    if exc is not None:
+        return
+    H.check("reads_back", H.eq(H.getattr(amp, cname), v))
+    H.check("other_controllers_untouched", H.eq({k: x for k, x in amp.controller_values.items() if k != cname}, before))
+    H.cover("reached")
